@@ -5,7 +5,7 @@ from layout import DESER, SER
 from mirlite import ty_str, callee, op_place, callee_res
 from flow import Tracer, NPlace
 
-HS = "std::collections::hash::set::HashSet"
+HS = ("std::collections::hash::set::HashSet", "alloc::collections::btree::set::BTreeSet")     # the two std sets
 
 
 def site_of(body):
@@ -297,7 +297,7 @@ def check_tag_loop(chk, sname, body, info, P="C13"):
     req_local = None
     for l in range(len(body.locals)):
         for d in tr.defs.get(l, []):
-            if d[2] == "call" and callee_res(d[3]).endswith("HashSet<T> as core::convert::From<[T; N]>>::from") \
+            if d[2] == "call" and callee_res(d[3]).endswith(("HashSet<T> as core::convert::From<[T; N]>>::from", "BTreeSet<T> as core::convert::From<[T; N]>>::from")) \
                     or (d[2] == "call" and callee(d[3]) == "core::convert::From::from" and
                         ty_str(d[3]["f"]["a"][0]).startswith(HS)):
                 v = tr.value(d[3]["args"][0])
@@ -314,7 +314,7 @@ def check_tag_loop(chk, sname, body, info, P="C13"):
     if init_req is None:
         # the same set built by collecting the array: `[a, b].into_iter().collect::<HashSet<u16>>()` / `HashSet::from_iter([..])`
         for l in range(len(body.locals)):
-            if not ty_str(body.locals[l].get("ty")).startswith(HS.rstrip(":")):
+            if not ty_str(body.locals[l].get("ty")).startswith(HS):
                 continue
             for d in tr.defs.get(l, []):
                 if d[2] != "call" or not callee(d[3]).endswith(("Iterator::collect", "FromIterator::from_iter")):
